@@ -153,6 +153,10 @@ def xr(f, i, defs=None, depth=0):
         return "(%s)%s" % (n["t"], xr(f, c[0], defs, depth))
     if k == "CXXOperatorCallExpr" and n.get("oop") == "*" and len(c) == 2:
         return "*" + xr(f, c[1], defs, depth)
+    if k == "CXXOperatorCallExpr" and len(c) == 3 and n.get("oop") in ("+", "-", "==", "!=", "<", "<=", ">", ">="):
+        a, b = xr(f, c[1], defs, depth), xr(f, c[2], defs, depth)
+        if f.r(i) == "(%s %s %s)" % (f.r(c[1]), n["oop"], f.r(c[2])):      # only where the plain rendering has this very form
+            return "(%s %s %s)" % (a, n["oop"], b)
     return f.r(i)
 
 
